@@ -75,6 +75,8 @@ let () =
         let lvl = level_of_tok lvl and k = int_of_string k in
         (match split_ws impl_line with
          | "panic" :: _ -> Printf.printf "nopanic | oracle=fail@panic\n"
+         | "start-event-has-no-line-of-its-own" :: _ ->
+           Printf.printf "start-ok | oracle=fail@the-writers-start-event-shares-a-physical-line-with-a-leftover-cut-line\n"
          | f :: rest when String.length f > 0 && f.[0] = 'F' ->
            let m = int_of_string (String.sub f 1 (String.length f - 1)) in
            let (ftoks, rest') = take_n m rest in
